@@ -106,6 +106,49 @@ theorem lc_exact (b64 : String → Bool) (h : Hdr) (tx : Tx) (hp : parse srcCfg 
   obtain ⟨m, e, hg, hl⟩ := (parse_wellFormed hp).lc
   exact ⟨m, e, hg, lc_strict_exact fact_lc_strict hg hl⟩
 
+/-- **The last occurrence of a header member decides** (jwx keeps the last one; duplicated members are where
+    smuggling hides): for the raw member list `ms` of the protected header (document order, duplicates kept), whatever is
+    accepted took its algorithm, clock, prevs, version and embedded-key flag from the LAST `alg` / `lc` / `prevs` / `ver` /
+    `jwk` member — an allowed algorithm given as a JSON string, `lc` exactly the clock, and so on. -/
+theorem last_member_decides (b64 : String → Bool) (nSigs : Nat) (ms : List (String × J)) (jwkOK jwkPrivate : Bool)
+    (payload : String) (ref : Nat) (h : Hdr) (tx : Tx)
+    (hh : hdrOfMembers nSigs ms jwkOK jwkPrivate payload ref = .ok h) (hp : parse srcCfg b64 h = .ok tx) :
+    getLast ms "alg" = some (.str tx.alg) ∧ tx.alg ∈ Facts.C06.allowedAlgos ∧
+    (∃ m e, getLast ms "lc" = some (.num m e) ∧ numEqNat m e tx.clock) ∧
+    (∃ l, getLast ms "prevs" = some (.arr l) ∧ parsePrevEls "prevs" l = .ok tx.prevs) ∧
+    (∃ m e, getLast ms "ver" = some (.num m e) ∧ tx.ver = toInt64 m e ∧ tx.ver ∈ Facts.C06.allowedVersion) ∧
+    tx.jwk = (getLast ms "jwk").isSome := by
+  unfold hdrOfMembers at hh
+  split at hh
+  · rename_i r hr
+    simp only [Res.ok.injEq] at hh
+    obtain ⟨p1, p2, p3⟩ := jwxMembers_spec hr
+    have hget : ∀ k, isPrivName k = true → h.get k = getLast ms k := by
+      intro k hk
+      subst hh
+      show getLast r.priv k = _
+      rw [p1 k hk]
+      cases getLast ms k <;> rfl
+    have wf := parse_wellFormed hp
+    have halg : h.alg = r.alg := by subst hh; rfl
+    have hjwk : h.hasJwk = r.hasJwk := by subst hh; rfl
+    refine ⟨?_, ?_, ?_, ?_, ?_, ?_⟩
+    · have hin : r.alg ∈ Facts.C06.allowedAlgos := halg ▸ wf.alg.2
+      rcases p2 with ⟨_, ha⟩ | ⟨s, g, ha⟩ | ⟨_, ha⟩
+      · rw [ha] at hin; exact absurd hin (by decide)
+      · rw [g, wf.alg.1, halg, ha]
+      · rw [ha] at hin; exact absurd hin (by decide)
+    · rw [wf.alg.1]; exact wf.alg.2
+    · obtain ⟨m, e, hg, hn, _⟩ := lc_exact b64 h tx hp
+      exact ⟨m, e, by rw [← hget "lc" (by decide)]; exact hg, hn⟩
+    · obtain ⟨l, hg, hl⟩ := wf.prevs
+      exact ⟨l, by rw [← hget "prevs" (by decide)]; exact hg, hl⟩
+    · obtain ⟨m, e, hg, hv, hin⟩ := wf.ver
+      exact ⟨m, e, by rw [← hget "ver" (by decide)]; exact hg, hv, hin⟩
+    · rw [wf.keyRef.1, hjwk, p3]; rfl
+  · cases hh
+  · cases hh
+
 /-- the statement `lc_exact` for an arbitrary configuration -/
 def LcExactStmt (cfg : Cfg) : Prop :=
   ∀ (b64 : String → Bool) (h : Hdr) (tx : Tx), parse cfg b64 h = .ok tx →
@@ -378,6 +421,14 @@ example :
 /-- `created_tx_admissible`: hypotheses are satisfiable on s2 (head = child, additional prev = root) -/
 example : createPrevsClock s2 [11] = .ok ([12, 11], 2) := by decide
 example : (add env subs s2 (mk 17 2 [12, 11] 105 true "") (some 5)).2 = .ok () := by decide
+
+/-- `last_member_decides`: a header with duplicated `lc` and `alg` members — the last ones win -/
+example :
+    (hdrOfMembers 1 [("alg", .str "none"), ("lc", .num 7 0), ("alg", .str "ES256"), ("cty", .str "a/b"), ("jwk", .obj),
+        ("sigt", .num 1 0), ("ver", .num 1 1), ("prevs", .arr []), ("lc", .num 5 0)] true false "" 7 >>=
+      parse srcCfg (fun _ => true)) =
+    .ok { ref := 7, alg := "ES256", payloadHash := 0, cty := "a/b", jwk := true, kid := "", sigt := 1, ver := 2,
+          prevs := [], pal := [], clock := 5 } := by decide
 
 /-- `notified_exactly_once`: the example subscriber set satisfies `SubsOK` -/
 example : SubsOK subs := by
